@@ -226,7 +226,7 @@ void do_to_chars(Toks& in, Out& impl, Out& ref, bool full)
 
 // ---------------------------------------------------------------- from_integer (etl specific API)
 template <typename T>
-void do_from_integer(Toks& in, Out& impl, Out& /*ref*/)
+void do_from_integer(Toks& in, Out& impl, Out& /*ref*/, bool full)
 {
     bool term       = in.num() != 0;
     int base        = static_cast<int>(in.num());
@@ -242,13 +242,21 @@ void do_from_integer(Toks& in, Out& impl, Out& /*ref*/)
             constexpr auto opt = etl::strings::from_integer_options{.terminate_with_null = false};
             r                  = etl::strings::from_integer<T, opt>(v, b.data(), len, base);
         }
-        o.tok(r.error == etl::strings::from_integer_error::none ? "ok" : "overflow");
-        if (r.end == nullptr) {
-            o.tok("null");
-        } else {
-            o.num(r.end - b.data());
+        bool ok = r.error == etl::strings::from_integer_error::none;
+        o.tok(ok ? "ok" : "overflow");
+        if (full) {
+            if (r.end == nullptr) {
+                o.tok("null");
+            } else {
+                o.num(r.end - b.data());
+            }
+            bytes(o, b.data(), len);
+        } else if (ok) {
+            // the characters written and, when requested, the terminator behind them
+            auto n = static_cast<std::size_t>(r.end - b.data());
+            bytes(o, b.data(), n);
+            if (term) { o.num(static_cast<i64>(b.data()[n])); }
         }
-        bytes(o, b.data(), len);
     });
     if (!b.guards_ok()) { impl.tok("guard"); }
 }
@@ -460,9 +468,11 @@ bool vh::run_case(std::string const& opname, Toks& in, Out& impl, Out& ref)
         auto ty = in.str();
         return with_type(ty, [&](auto tg) { do_to_chars<typename decltype(tg)::type>(in, impl, ref, op == "to_chars_buf"); });
     }
-    if (op == "from_integer") {
+    if (op == "from_integer" || op == "from_integer_buf") {
         auto ty = in.str();
-        return with_type(ty, [&](auto tg) { do_from_integer<typename decltype(tg)::type>(in, impl, ref); });
+        return with_type(ty, [&](auto tg) {
+            do_from_integer<typename decltype(tg)::type>(in, impl, ref, op == "from_integer_buf");
+        });
     }
     if (op == "from_chars") {
         auto ty = in.str();
